@@ -83,6 +83,34 @@ func c17Gen(t *rapid.T) c17Case {
 			}
 		}
 	}
+	if rapid.IntRange(0, 11).Draw(t, "dupInput") == 0 {
+		// the same nonterminal as a full and as a no-eoi input (must be rejected or must build)
+		first := c.G.Inputs[0]
+		c.G.Inputs = append(c.G.Inputs, egInput{NT: first.NT, Eoi: !first.Eoi})
+	}
+	if rapid.IntRange(0, 11).Draw(t, "deepLA") == 0 && c.G.T > 4 {
+		// a reduce/reduce conflict that only a second token of lookahead resolves
+		n := len(c.G.NTs)
+		mk := func(ts ...int) *egAlt {
+			a := &egAlt{}
+			for _, x := range ts {
+				if x < 0 {
+					a.Parts = append(a.Parts, &egPart{K: "n", Sym: -x})
+				} else {
+					a.Parts = append(a.Parts, &egPart{K: "t", Sym: x})
+				}
+			}
+			return a
+		}
+		c.G.NTs = append(c.G.NTs,
+			&egNT{Name: "Dla", Alts: []*egAlt{mk(-(n + 1), 1, 2), mk(-(n + 2), 1, 3)}},
+			&egNT{Name: "Dlb", Alts: []*egAlt{mk(4)}},
+			&egNT{Name: "Dlc", Alts: []*egAlt{mk(4)}})
+		c.G.Inputs = append(c.G.Inputs, egInput{NT: n, Eoi: true})
+		if c.K == 0 {
+			c.K = 2
+		}
+	}
 	return c
 }
 
